@@ -101,23 +101,27 @@ theorem iccToDict_terminates (b : Bytes) : iccToDict b ≠ .diverge := by
 
 /-! ### one element -/
 
-/-- the configurations C07 is stated for: no `decimal` typed field (decimal.InvalidOperation is not a
-    ValueError), and the sub-structured processors sit on string-typed elements (as documented) -/
+/-- the configurations C07 is stated for: every python type (string, int / long, decimal,
+    datetime); the sub-structured processors sit on string-typed elements (as documented) -/
 def FieldOK (f : FieldCfg) : Prop :=
-  f.pytype ≠ .decimal ∧ ((f.proc = .icc ∨ f.proc = .pds ∨ f.proc = .de43) → f.pytype = .str)
+  (f.proc = .icc ∨ f.proc = .pds ∨ f.proc = .de43) → f.pytype = .str
 
-theorem stringToPyType_safe (env : Env) (f : FieldCfg) (t : Text) (h : f.pytype ≠ .decimal) :
-    Safe ((stringToPyType env f t).catchAs isValueError) := by
+/-- the typed conversion under its handler `except (ValueError, decimal.InvalidOperation)`:
+    a value or the library error, for every python type — `decimal` included -/
+theorem stringToPyType_safe (env : Env) (f : FieldCfg) (t : Text) :
+    Safe ((stringToPyType env f t).catchAs isConvError) := by
   unfold stringToPyType
   cases hp : f.pytype with
   | str => simp [Outcome.catchAs, Safe, Outcome.isOkOrDataError]
   | int =>
     simp only
-    cases pyInt env.classes t <;> simp [Outcome.catchAs, isValueError, Safe, Outcome.isOkOrDataError]
-  | decimal => exact absurd hp h
+    cases pyInt env.classes t <;> simp [Outcome.catchAs, isConvError, Safe, Outcome.isOkOrDataError]
+  | decimal =>
+    simp only
+    cases pyDecimal env.classes t <;> simp [Outcome.catchAs, isConvError, Safe, Outcome.isOkOrDataError]
   | datetime =>
     simp only
-    cases strptime env.classes f.dateFmt t <;> simp [Outcome.catchAs, isValueError, Safe, Outcome.isOkOrDataError]
+    cases strptime env.classes f.dateFmt t <;> simp [Outcome.catchAs, isConvError, Safe, Outcome.isOkOrDataError]
 
 theorem stringToPyType_str (env : Env) (f : FieldCfg) (t : Text) (h : f.pytype = .str) :
     stringToPyType env f t = .ok (.str t) := by
@@ -167,13 +171,13 @@ theorem decodeTextField_safe (env : Env) (bit : Nat) (f : FieldCfg) (raw : Bytes
   · exact safe_dataError
   · rename_i text _
     by_cases hs : f.proc = .pds ∨ f.proc = .de43
-    · have hstr : f.pytype = .str := hf.2 (Or.inr hs)
+    · have hstr : f.pytype = .str := hf (Or.inr hs)
       rw [stringToPyType_str env f _ hstr]
       simp only [Outcome.catchAs, Outcome.bind]
       exact safe_bind (derived_safe_str env bit f _) (fun _ => safe_ok _)
     · have h1 : f.proc ≠ .pds := fun h => hs (Or.inl h)
       have h2 : f.proc ≠ .de43 := fun h => hs (Or.inr h)
-      apply safe_bind (stringToPyType_safe env f _ hf.1)
+      apply safe_bind (stringToPyType_safe env f _)
       intro v
       exact safe_bind (derived_safe_plain env bit f v h1 h2) (fun _ => safe_ok _)
 
@@ -186,7 +190,7 @@ theorem decodeField_safe (env : Env) (bit : Nat) (f : FieldCfg) (data : Bytes) (
   apply safe_bind
   · split
     · rename_i hicc
-      exact decodeIcc_safe bit f _ (hf.2 (Or.inl (by simpa using hicc)))
+      exact decodeIcc_safe bit f _ (hf (Or.inl (by simpa using hicc)))
     · exact decodeTextField_safe env bit f _ hf
   · intro d; exact safe_ok _
 
@@ -195,13 +199,13 @@ def ConfigOK (cfg : Config) : Prop := ∀ e ∈ cfg, FieldOK e.2
 
 /-- decidable form of `FieldOK`, so that a configuration of any size is checked by `decide` -/
 def fieldOKb (f : FieldCfg) : Bool :=
-  f.pytype != .decimal && (!(f.proc == .icc || f.proc == .pds || f.proc == .de43) || f.pytype == .str)
+  !(f.proc == .icc || f.proc == .pds || f.proc == .de43) || f.pytype == .str
 
 theorem fieldOK_of_b {f : FieldCfg} (h : fieldOKb f = true) : FieldOK f := by
   unfold fieldOKb at h
-  simp only [Bool.and_eq_true, bne_iff_ne, ne_eq, Bool.or_eq_true, Bool.not_eq_true', beq_iff_eq] at h
-  refine ⟨h.1, fun hp => ?_⟩
-  rcases h.2 with h2 | h2
+  simp only [Bool.or_eq_true, Bool.not_eq_true', beq_iff_eq] at h
+  intro hp
+  rcases h with h2 | h2
   · rcases hp with hp | hp | hp <;> simp [hp] at h2
   · exact h2
 
